@@ -16,7 +16,7 @@ Openers(kind) ==
     [] kind = "fcode-block" -> {"`", "~"}
     [] kind = "block-quote" -> {">"}
     [] kind = "tbreak" -> {"-", "*", "_"}
-    [] kind = "link" -> {"["}
+    [] kind \in {"link", "link-ref-def"} -> {"["}
     [] kind = "image" -> {"!"}
     [] kind \in {"emphasis", "end-emphasis"} -> {"*", "_", "~"}
     [] kind = "icode-span" -> {"`"}
